@@ -21,6 +21,7 @@ import (
 	"github.com/named-data/ndnd/fw/dispatch"
 	"github.com/named-data/ndnd/fw/face"
 	fwfw "github.com/named-data/ndnd/fw/fw"
+	fwmgmt "github.com/named-data/ndnd/fw/mgmt"
 	"github.com/named-data/ndnd/fw/table"
 	enc "github.com/named-data/ndnd/std/encoding"
 
@@ -50,6 +51,35 @@ func c16Setup(algo string, m int) {
 	table.Configure()
 	table.CreateFIBTable(algo)
 	table.VerifResetRib()
+	table.VerifResetReadvertisers()
+}
+
+// c16SetupReadvertise is c16Setup plus what the daemon does when ReadvertiseNlsr is on (the
+// default): a management thread whose NLSR readvertiser is called from inside every RIB update
+// of a client-origin route. Its commands go through the internal face to recording threads.
+var c16RecOnce sync.Once
+
+func c16SetupReadvertise(algo string, m int) bool {
+	cfg := fwenv.Config()
+	cfg.Tables.Fib.Hashtable.M = uint16(m)
+	cfg.Tables.Rib.ReadvertiseNlsr = true
+	fwenv.Load(cfg)
+	table.Configure()
+	table.CreateFIBTable(algo)
+	table.VerifResetRib()
+	table.VerifResetReadvertisers()
+	// the daemon installs its forwarding threads once, at start-up, before any face runs
+	c16RecOnce.Do(func() { fwenv.InstallRecThreads(1) })
+	mt := fwmgmt.MakeMgmtThread()
+	go mt.Run()
+	pfx, _ := enc.NameFromStr("/localhost/nfd")
+	for k := 0; k < 500; k++ {
+		if len(table.FibStrategyTable.FindNextHopsEnc(pfx)) > 0 {
+			return true
+		}
+		time.Sleep(time.Millisecond)
+	}
+	return false
 }
 
 // readLikeForwarder does what a forwarding thread does with a lookup result:
@@ -77,7 +107,15 @@ func c16Clients(c *h.Ctx, id string, r *rand.Rand) {
 	procs := []int{2, 4, 16}[r.Intn(3)]
 	prev := runtime.GOMAXPROCS(procs)
 	defer runtime.GOMAXPROCS(prev)
-	c16Setup(algo, 1+r.Intn(3))
+	readv := r.Intn(2) == 0
+	if readv {
+		if !c16SetupReadvertise(algo, 1+r.Intn(3)) {
+			c.Inconclusive("management thread did not come up")
+			return
+		}
+	} else {
+		c16Setup(algo, 1+r.Intn(3))
+	}
 	names := c16Names()
 	strat1, _ := enc.NameFromStr("/localhost/nfd/strategy/best-route/v=1")
 	strat2, _ := enc.NameFromStr("/localhost/nfd/strategy/multicast/v=1")
@@ -105,10 +143,14 @@ func c16Clients(c *h.Ctx, id string, r *rand.Rand) {
 				f := uint64(1 + rr.Intn(3))
 				switch role {
 				case 0:
+					origin := uint64(0)
+					if rr.Intn(2) == 0 {
+						origin = table.RouteOriginClient // the origin the readvertiser acts on
+					}
 					if rr.Intn(3) != 0 {
-						table.Rib.AddEncRoute(n.Clone(), &table.Route{FaceID: f, Origin: 0, Cost: uint64(rr.Intn(4)), Flags: uint64(rr.Intn(2))})
+						table.Rib.AddEncRoute(n.Clone(), &table.Route{FaceID: f, Origin: origin, Cost: uint64(rr.Intn(4)), Flags: uint64(rr.Intn(2))})
 					} else {
-						table.Rib.RemoveRouteEnc(n.Clone(), f, 0)
+						table.Rib.RemoveRouteEnc(n.Clone(), f, origin)
 					}
 					nMut.Add(1)
 				case 2:
@@ -152,10 +194,10 @@ func c16Clients(c *h.Ctx, id string, r *rand.Rand) {
 	go func() { wg.Wait(); close(done) }()
 	select {
 	case <-done:
-	case <-time.After(60 * time.Second):
+	case <-time.After(40 * time.Second):
 		buf := make([]byte, 1<<18)
 		nb := runtime.Stack(buf, true)
-		c.Violation("C16:deadlock:table-clients", id, "table clients did not finish within 60 s (deadlock suspected)", map[string]any{"algo": algo, "goroutines": g, "stacks": string(buf[:nb])})
+		c.Violation("C16:deadlock:table-clients", id, "table clients did not finish within 40 s (deadlock suspected)", map[string]any{"algo": algo, "goroutines": g, "nlsr_readvertiser": readv, "stacks": string(buf[:nb])})
 		return
 	}
 	if p := panicked.Load(); p != nil {
@@ -163,7 +205,7 @@ func c16Clients(c *h.Ctx, id string, r *rand.Rand) {
 	}
 	c.Count("client_lookups", nLook.Load())
 	c.Count("client_mutations", nMut.Load())
-	c.Distinct(fmt.Sprintf("clients|%s|g=%d|procs=%d", algo, g, procs))
+	c.Distinct(fmt.Sprintf("clients|%s|g=%d|procs=%d|readvertise=%v", algo, g, procs, readv))
 	c.Sample(map[string]any{"workload": "table-clients", "fib": algo, "goroutines": g, "gomaxprocs": procs, "ops_per_goroutine": nOps})
 }
 
@@ -498,17 +540,20 @@ func c16History(c *h.Ctx, id string, r *rand.Rand) {
 }
 
 func c16Run(c *h.Ctx) {
+	// the pipeline cases come first: they (re)install forwarding threads, which the daemon does
+	// once at start-up; the client cases below leave management threads behind whose internal
+	// faces must never see the thread table being replaced underneath them
+	for k := 0; k < c.Pick(2, 20); k++ {
+		id := fmt.Sprintf("pipeline%d", k)
+		if c.Case(id) {
+			c16Pipeline(c, id, c.Rng(id))
+		}
+	}
 	n := c.Pick(6, 120)
 	for k := 0; k < n; k++ {
 		id := fmt.Sprintf("clients%d", k)
 		if c.Case(id) {
 			c16Clients(c, id, c.Rng(id))
-		}
-	}
-	for k := 0; k < c.Pick(2, 20); k++ {
-		id := fmt.Sprintf("pipeline%d", k)
-		if c.Case(id) {
-			c16Pipeline(c, id, c.Rng(id))
 		}
 	}
 	for k := 0; k < c.Pick(400, 3000); k++ {
